@@ -1387,6 +1387,9 @@ STATEMENTS = {
 	'view_var_type_origin': 'Param.var_type_origin of <name>, <name><…>, <name>…*, <name>…& and const <name>… is the whole type name, for every type name but the word const',
 	'view_super_initializer': "SuperInitializer.parse('<Base>::__init__(<args>);') = (Base, args) for every identifier Base and every ;-free argument text",
 	'equivariant_capture': 'Lambda.ref_vars / Closure.ref_vars (referenced variables minus the own parameters) and the capture list of make_lambda_binds (first reference first, each name once) commute with every injective renaming',
+	'equivariant_templates': 'Function.templates / Method.templates (type variables of parameters and return type in order of first use, a method without those of its class: the C++ template header) commute with every injective renaming',
+	'swapNames_injective': 'helper: swapping the names a and b is an injective renaming (used by templates_sorted_counterexample)',
+	'templates_sorted_counterexample': 'REGRESSION (seeded mutation): type variables ordered by NAME (sorted(key=domain_name)) are not equivariant — swapping a and b does not swap the header',
 	'capture_prefix_counterexample': 'REGRESSION (seeded mutation): parameters removed with startswith(<parameter names>) drop the captured factor_bias beside the parameter factor',
 	'name_sites_guarded': 'in the table generated from py2cpp.py on this run (every comparison of a user-controlled name with words the transpiler spells out), each comparison of a MEMBER name with words a user class may use (items, keys, values, pop, sort, split, on, raw, name, value, …) stands under a guard on the TYPE of the receiver (type_is / cvars.contains / cvars.equals / isinstance(.types) / a Py2Cpp predicate that is such a site)',
 	'equivariant': 'bundle of the equivariant_* theorems for an injective renaming that fixes the reserved words',
@@ -1400,7 +1403,7 @@ def run(ctx: Ctx) -> int:
 	proof = common.prove(ctx, PROP, leanchecker=ctx.thorough)
 	with ctx.timed('correspondence'):
 		streams = [guarded_stream(ctx, name, fn) for name, fn in (('dsn', stream_dsn), ('scope-real', stream_real), ('scope-synth', stream_synth),
-			('merge', stream_merge), ('naming', stream_naming), ('fragments', stream_fragments), ('regex', stream_regex), ('viewhelper', stream_viewhelper), ('capture', stream_capture))]
+			('merge', stream_merge), ('naming', stream_naming), ('fragments', stream_fragments), ('regex', stream_regex), ('viewhelper', stream_viewhelper), ('capture', stream_capture), ('templates', stream_templates))]
 	with ctx.timed('search'):
 		searches = [guarded_search(ctx, label, fn) for label, fn in (('rename', search_rename), ('sibling-scopes', search_sibling_scopes),
 			('symtable', search_symtable), ('fragments', search_fragments))]
@@ -1412,7 +1415,7 @@ def run(ctx: Ctx) -> int:
 				'the string layer refines the abstract layer for identifier names for every modelled function, including VarsCollector._merged as repaired in 526fc7c; '
 				'class naming, enum member lookup, the PatternParser regex helpers and the CppViewHelper type-name / base-class helpers return the parts of well-formed fragments verbatim and decide by whole names; '
 				'every member-name comparison of py2cpp.py is type-guarded (kernel-decided over the generated table)',
-			'correspondence_only': 'that the two model layers are what the Python does (streams dsn, scope-real, scope-synth, merge, naming, fragments, viewhelper, capture); that the hand-written scanners of Fragment / ViewHelper equal the generated patterns (streams regex, viewhelper print both)',
+			'correspondence_only': 'that the two model layers are what the Python does (streams dsn, scope-real, scope-synth, merge, naming, fragments, viewhelper, capture, templates); that the hand-written scanners of Fragment / ViewHelper equal the generated patterns (streams regex, viewhelper print both)',
 			'search_only': 'the whole-pipeline law transpile(r(P)) == r(transpile(P)) incl. templates and the regex/string post-processing of py2cpp.py:1679-1836, symbol keys, inferred type strings',
 			'not_modelled': 'the handler-less ClassDomainNaming.__namespace only on the string layer (dead from Py2Cpp); CppViewHelper.Param.parse (BlockParser: property C18) and Method.break_iterator_list_complex (its patterns are generated and matched, the function is not composed), Initializer.parse only as the composition over the generated patterns (no theorem), and the templates: search only',
 			'generated': 'Generated/C08Regex.lean (15 compiled patterns, via re._parser), Generated/C08Sites.lean (comparison sites, ast scan vs translate/c08_sites_audited.json) and Generated/C08Names.lean (every comparison of a user-controlled name of py2cpp.py with constant words, the words evaluated in the imported module, with the type guards around it) are rewritten from the source on every run; the word sets of C08Names also drive the member-spelling programs of the search',
@@ -1817,6 +1820,107 @@ def stream_capture(ctx: Ctx) -> Stream:
 	st.histogram.update(hist)
 	st.note = ('Lambda.ref_vars / Closure.ref_vars (names of the referenced variables that are not parameters) and Py2Cpp.make_lambda_binds (capture list) of every lambda and closure of '
 		'meeting-pair programs and nests, three quarters of them renamed so that a captured variable and a parameter are prefix / suffix / infix / case variants of each other')
+	return st
+
+
+def signature_type_vars(source: str) -> dict[tuple[str, str], tuple[list[str], list[str]]]:
+	"""(class or '', function) -> (type variables of the class's Generic[...] bases, type variables used in the parameter and return
+	annotations in source order), read off the CPython ast."""
+	import ast
+	tree = ast.parse(source)
+	tvars = {t.id for st in tree.body if isinstance(st, ast.Assign) and isinstance(st.value, ast.Call) and isinstance(st.value.func, ast.Name) and st.value.func.id == 'TypeVar'
+		for t in st.targets if isinstance(t, ast.Name)}
+
+	def names(e: Any) -> list[str]:
+		out: list[str] = []
+		if e is None:
+			return out
+		if isinstance(e, ast.Constant) and isinstance(e.value, str):
+			try:
+				return names(ast.parse(e.value, mode='eval').body)
+			except SyntaxError:
+				return out
+		if isinstance(e, ast.Name):
+			return [e.id] if e.id in tvars else []
+		for child in ast.iter_child_nodes(e):
+			out += names(child)
+		return out
+
+	table: dict[tuple[str, str], tuple[list[str], list[str]]] = {}
+
+	def visit(body: list[Any], cls: str, klass: list[str]) -> None:
+		for st in body:
+			if isinstance(st, ast.ClassDef):
+				visit(st.body, st.name, [n for b in st.bases for n in names(b)])
+			elif isinstance(st, (ast.FunctionDef, ast.AsyncFunctionDef)):
+				used: list[str] = []
+				for a in [*st.args.posonlyargs, *st.args.args, *st.args.kwonlyargs]:
+					if a.arg not in ('self', 'cls'):
+						used += names(a.annotation)
+				used += names(st.returns)
+				table[(cls, st.name)] = (klass if cls else [], used)
+
+	visit(tree.body, '', [])
+	return table
+
+
+def stream_templates(ctx: Ctx) -> Stream:
+	"""The REAL type-parameter list of every function / method / class method / constructor (`function_templates`: Function.templates,
+	Method.templates) vs the model fed with the type variables of the signature as the CPython ast shows them."""
+	import rogw.tranp.semantics.reflection.definition as refs
+	import rogw.tranp.syntax.node.definition as defs
+	from rogw.tranp.semantics.reflections import Reflections
+	rng = ctx.sub_rng('templates')
+	real = Real(ctx)
+	reserved = real.reserved()
+	avoid = c08gen.emitter_vocabulary() | reserved.words
+	cases = []
+	hist: Counter[str] = Counter()
+	deadline = Deadline(ctx, 15, 120)
+	n = ctx.scale(8, 80)
+	for i in budgeted(range(n)):
+		if deadline.cut(hist, i, n):
+			break
+		prng = random.Random(rng.getrandbits(48))
+		src = c08gen.generate_pairs_program(prng, avoid) if i % 4 != 3 else c08gen.generate_nest(prng, 2)[0]
+		if i % 2 == 1:
+			try:
+				dom = c08gen.renaming_domain(src, reserved)
+				src = c08gen.rename_source(src, c08gen.reverse_order_renaming(dom, set(c08gen.IDENT_RE.findall(src)), reserved))
+				hist['program:alphabetical order of all identifiers reversed'] += 1
+			except Exception:  # noqa: BLE001
+				pass
+		try:
+			table = signature_type_vars(src)
+			module = real.load(src)
+			reflections = real.app.resolve(Reflections)
+			fns = [nd for nd in module.entrypoint.procedural() if isinstance(nd, defs.Function) and not isinstance(nd, defs.Closure)]
+		except Exception:  # noqa: BLE001
+			hist['program:not-loadable'] += 1
+			continue
+		ops: list[str] = []
+		outs: list[str] = []
+		for nd in fns:
+			try:
+				cls = nd.class_types.domain_name if isinstance(nd, (defs.Method, defs.ClassMethod, defs.Constructor)) else ''
+				key = (cls, nd.domain_name)
+			except Exception:  # noqa: BLE001
+				continue
+			if key not in table:
+				continue
+			klass, used = table[key]
+			ops.append(f'templates\t{hl(klass)}\t{hl(used)}')
+			try:
+				outs.append(hl([t.domain_name for t in reflections.type_of(nd).impl(refs.Function).function_templates()]))
+			except Exception as e:  # noqa: BLE001
+				outs.append(exc_enum(e))
+			hist[f'{type(nd).__name__}:type-vars={min(len(set(used) - set(klass)), 3)}'] += 1
+		if ops:
+			cases.append(({'functions': len(ops)}, ops, outs))
+	st = common.correspond('templates', cases, 'scope', classify=lambda d: f"functions<{10 * (1 + d['functions'] // 10)}")
+	st.histogram.update(hist)
+	st.note = ('function_templates() of every function, method, class method and constructor of meeting-pair programs (generic class, generic method / class method / free function with two '
+		'type variables declared and used in random order) and nests, half of them with the alphabetical order of all identifiers reversed; signature type variables from the CPython ast')
 	return st
 
 
